@@ -858,3 +858,40 @@ def swap_plain(chk, rid, f, plain):
             else:
                 chk.bad(rid, f, "swap-misses:" + dsc.replace(o + ".", "other."), where,
                         "swap does not perform `%s` with the value the source had on entry" % dsc)
+
+
+def iterator_param_alias(prog, chk, rid, classes=tuple(NODE)):
+    """begin()/end() hand out references to the container's own _begin/_end members, so a `const Iterator&`
+    argument may BE _begin: it must not be read after _begin was re-seated."""
+    chk.rule(rid, "ALIAS: a `const Iterator&` parameter (possibly the container's own _begin, as returned by begin()) is not read after "
+                  "a store to _begin.item or a call to a mutating member of this container", floor=len(classes))
+    for cls in classes:
+        for tn, fs in sorted(class_insts(prog, cls).items()):
+            n_params = 0
+            for f in fs:
+                if f.cls != tn:
+                    continue
+                for p in f.params:
+                    if not re.match(r"^const .*::Iterator &$", p["t"]):
+                        continue
+                    n_params += 1
+                    reads = [i for i, n in enumerate(f.nodes) if n["k"] == "DeclRefExpr" and n["ref"]["id"] == p["id"]]
+                    muts = [s.node for s in q.stores(f) if q.no_casts(f.r(s.lhs)) == "this->_begin.item" or
+                            "this->_begin.item =" in q.no_casts(f.r(s.lhs))]
+                    for c in q.calls(f):
+                        n = f.nodes[c]
+                        if n["k"] == "CXXMemberCallExpr" and n.get("ccls") == tn and not n.get("csig", "").endswith(" const"):
+                            o = q.call_object(f, c)
+                            if o is None or f.nodes[o]["k"] == "CXXThisExpr":
+                                muts.append(c)
+                    late = [(m, r) for m in muts for r in reads if r not in f.desc(m) and q.reaches(f, m, r)]
+                    if late:
+                        m, r = late[0]
+                        chk.bad(rid, f, "iterator-argument-read-after-begin-changed:" + p["n"], f.where(r),
+                                "`%s` is read after `%s`; when the argument is the container's own begin() (a reference to _begin) it now "
+                                "designates a different element: the returned/used iterator skips one" % (p["n"], f.r(m)[:50]))
+                    else:
+                        chk.ok(rid, f, "iterator parameter `%s` is consumed before _begin can change" % p["n"], "%s:%s" % (f.file, f.line),
+                               "%d reads, %d mutating events" % (len(reads), len(muts)), evals=max(1, len(reads) * max(1, len(muts))))
+            if n_params == 0:
+                chk.ok(rid, cls, "%s: no const Iterator& parameters" % tn, "", "", nontrivial=False)
